@@ -267,6 +267,23 @@ TEXT_ADD9 = {
  "C18": " An uncreatable destination is reported.",
  "C19": " The language tag written does not depend on map order.",
 }
+TECH_ADD10 = {
+ "C01": "a split function that hands the pending data to another function is UNDECIDED",
+ "C03": "scanners of the TTML reader have Err() consulted before a success return",
+ "C07": "the components of tts:origin / tts:extent reach the WebVTT settings without a blank; a float computed from a Duration is floored before a formatter sees it",
+ "C10": "Order may sort (cue, position) pairs with an unstable sort under start-then-position",
+ "C13": "a binary search runs over the very value a dominating sort call sorted",
+ "C15": "the four reference times reach the slope and the intercept without Milliseconds / Truncate / Round / integer division",
+ "C16": "no float computed from a Duration reaches FormatFloat or a fmt verb unless floored",
+ "C17": "a split function that hands the pending data to another function is UNDECIDED",
+}
+TEXT_ADD10 = {
+ "C03": " A paragraph longer than a scanner token is not cut short.",
+ "C07": " Two blanks inside tts:origin do not leak into the cue settings.",
+ "C13": " Styles inherited by used styles are found by the search that decides what to delete.",
+ "C15": " Reference points are not truncated to milliseconds.",
+ "C16": " 999.6 ms is not written as 1000.",
+}
 for k, v in TECH_ADD.items():
     TECH[k] += "; " + v
 for k, v in TEXT_ADD.items():
@@ -302,6 +319,10 @@ for k, v in TEXT_ADD8.items():
 for k, v in TECH_ADD9.items():
     TECH[k] += "; " + v
 for k, v in TEXT_ADD9.items():
+    TEXT[k] += v
+for k, v in TECH_ADD10.items():
+    TECH[k] += "; " + v
+for k, v in TEXT_ADD10.items():
     TEXT[k] += v
 NOTE = "Assumes P0 (non-nil receivers/arguments), P1 (non-nil model elements, map keys = IDs), library contracts in internal/chk/contracts.go, and the fidelity of go/ssa + VTA (x/tools v0.29.0). Audited residue entries in rules/residue.txt are trusted."
 props = [json.loads(l) for l in open("/verif/properties.jsonl")]
